@@ -309,9 +309,77 @@ def replay_real_scale(v, st, out, inits, first, rnd, walks, steps):
     v.add('real_scale_steps', done)
 
 
+def _apalache(inv, expect_ok, timeout=900):
+    import subprocess
+    work = common.workdir()
+    out = os.path.join(work, 'apalache_%s' % inv)
+    try:
+        p = subprocess.run(['apalache-mc', 'check', '--init=ScaleInit', '--next=ScaleNext', '--inv=' + inv, '--length=1', '--out-dir=' + out,
+                            'StreamIdsScale.tla'], cwd=tlc.SPEC_DIR, stdout=subprocess.PIPE, stderr=subprocess.STDOUT, text=True, timeout=timeout)
+    except (subprocess.TimeoutExpired, FileNotFoundError) as ex:
+        raise common.Machinery('apalache-mc did not run to the end on StreamIdsScale/%s: %s' % (inv, ex))
+    ok = 'EXITCODE: OK' in p.stdout and 'NoError' in p.stdout
+    refuted = 'invariant 0 violated' in p.stdout
+    if not ok and not refuted:
+        raise common.Machinery('apalache-mc gave no verdict on StreamIdsScale/%s:\n%s' % (inv, p.stdout[-1500:]))
+    return ok
+
+
+def symbolic_real_scale(v, rnd):
+    """StreamIdsScale.tla: the allocation step at the real 31-bit scale for EVERY allocator position and EVERY set of at most 4 active ids,
+    decided symbolically by Apalache; a control invariant must be refuted; and the transcribed step function is compared with the real
+    StreamControl on boundary and random states of that domain (the binding)."""
+    from rsocket.stream_control import StreamControl
+    from rsocket.exceptions import RSocketStreamAllocationFailure
+    if not _apalache('ScaleInv', True):
+        v.add_failure('C13.design_ScaleInv', {'model': 'StreamIdsScale'}, 'Apalache: ScaleInv refuted at the real 31-bit scale (the allocation step hands out 0 / an active id / '
+                      'the wrong parity / not the first free id for some position and some set of up to 4 active ids)')
+    if _apalache('ScaleNeverWraps', False):
+        raise common.Machinery('control invariant ScaleNeverWraps of StreamIdsScale.tla was not refuted: the symbolic check is vacuous')
+    v.coverage['symbolic_real_scale'] = 'Apalache: ScaleInv holds for all positions in 0..2^31-1 of either parity and all sets of <= 4 active ids; control refuted'
+    mod = 2 ** 31
+
+    def alloc(last, act):           # the step function of StreamIdsScale.tla
+        cur = last
+        for _ in range(6):
+            cur = (cur + 2) % mod
+            if cur != 0 and cur not in act:
+                return cur
+        return -1
+
+    n = 0
+    marks = [0, 1, 2, 3, 4, 5, mod - 1, mod - 2, mod - 3, mod - 4, mod - 5, mod // 2, mod // 2 + 1]
+    for _ in range(4000):
+        parity = rnd.randint(0, 1)
+        last = rnd.choice(marks) if rnd.random() < 0.7 else rnd.randrange(mod)
+        last -= (last - parity) % 2
+        last %= mod
+        act = set()
+        for _k in range(rnd.randint(0, 4)):
+            x = rnd.choice([(last + 2 * rnd.randint(1, 5)) % mod, rnd.choice(marks), rnd.randrange(1, mod)])
+            if x != 0:
+                act.add(x)
+        sc = StreamControl(parity if parity else 2)
+        sc._current_stream_id = last
+        for a in act:
+            sc._streams[a] = object()
+        try:
+            got = sc.allocate_stream()
+        except RSocketStreamAllocationFailure:
+            got = -1
+        n += 1
+        want = alloc(last, act)
+        if got != want:
+            v.add_failure('C13.advances_by_two_and_wraps', {'scale': 'real', 'model': 'StreamIdsScale'},
+                          'allocator at %d with ids %s in use handed out %s, the specification step says %s' % (last, sorted(act), got, want))
+            break
+    v.add('real_scale_symbolic_domain_samples', n)
+
+
 def run(v):
     thorough = common.tier() == 'thorough'
     rnd = random.Random(common.seed())
+    symbolic_real_scale(v, rnd)
     cfgs = [('c7', 1, 7), ('s7', 2, 7), ('c15', 1, 15), ('s15', 2, 15)]
     # (A) exhaustive model checking with coverage
     for name, first, mx in cfgs:
